@@ -3,6 +3,9 @@ from harness import common as H
 from vlib import fakes as F
 
 MiB = 1024 ** 2
+# private-attribute groups (vlib/layout.py) the obligations of this module depend on
+LAYOUT = ['manager', 'coord', 'task', 'bex', 'tasksem', 'sws'] + ['rfc', 'nonseek', 'agg']
+
 EXPLANATION = (
     'C01: real TransferManager.upload / copy (submission task, input managers, ReadFileChunk, UploadPartTask, '
     'CompleteMultipartUploadTask, CopyPartTask) run under CrossHair over an in-memory S3 that plays botocore\'s body '
